@@ -29,6 +29,14 @@ import (
 // must not be visible to the next
 var c20Shared = markdown.New(nil)
 
+// the same renderer over a content file system whose site-wide data (theme.yml, data/*.yml) defines every name the
+// default templates use: a document's own values - also its absent ones (no title, no language, no id) - decide
+var c20Site = markdown.New(fstest.MapFS{
+	"theme.yml":     &fstest.MapFile{Data: []byte("title: SITE-TITLE\nid: site-id\nalt: SITE-ALT\nhref: /site-href\nsrc: /site-src\nlanguage: sitelang\nlabel: SITE-LABEL\n")},
+	"data/site.yml": &fstest.MapFile{Data: []byte("start: 7\nordered: true\nchecked: true\nlevel: 1\ncode: SITE-CODE\ncontent: SITE-CONTENT\nalign: right\nrows: [[{content: SITE-ROW}]]\nheaders: [{content: SITE-HDR}]\ncell: {content: SITE-CELL, align: center}\n")},
+})
+var c20UseSite bool
+
 func c20Vuego(src string, overrides map[string]string) (out string, err error) {
 	defer func() {
 		if x := recover(); x != nil {
@@ -38,6 +46,9 @@ func c20Vuego(src string, overrides map[string]string) (out string, err error) {
 	var md *markdown.Markdown
 	if overrides == nil {
 		md = c20Shared
+		if c20UseSite {
+			md = c20Site
+		}
 	} else {
 		m := fstest.MapFS{}
 		for k, v := range overrides {
@@ -307,7 +318,7 @@ func init() { streams["C20"] = runC20 }
 func runC20(r *Run) {
 	r.Imports = []string{"Model.Tok", "Model.Md"}
 	r.Rule("documents generated from a CommonMark/GFM grammar (ATX and setext headings, paragraphs, nested emphasis, code spans, fenced and indented code, links and images with titles, autolinks and bare links, nested lists with starts and task items, tight and loose, blockquotes, tables with alignment, thematic breaks, hard and soft breaks, raw HTML inline and block, strikethrough, entities, backslash escapes, mustache-looking text): " +
-		"markdown.RenderBytes through the default templates vs goldmark's own HTML renderer (GFM, unsafe): both parsed with x/net/html and compared after dropping representation choices (attribute order, start=1, align vs style, heading ids, URL percent-encoding, whitespace outside pre); arbitrary byte strings must render without error; every single-template override replaces exactly that template")
+		"markdown.RenderBytes through the default templates vs goldmark's own HTML renderer (GFM, unsafe): both parsed with x/net/html and compared after dropping representation choices (attribute order, start=1, align vs style, heading ids, URL percent-encoding, whitespace outside pre); arbitrary byte strings must render without error; every single-template override replaces exactly that template; every third document is rendered by a renderer whose content file system defines site-wide values for every name the default templates use")
 	rr := r.Rng
 	n := 800
 	if r.Thorough() {
@@ -315,7 +326,12 @@ func runC20(r *Run) {
 	}
 	for i := 0; i < n; i++ {
 		src := c20Blocks(rr, 2)
+		c20UseSite = i%3 == 2 // every third document through the renderer whose site data defines the templates' names
 		got, err := c20Vuego(src, nil)
+		c20UseSite = false
+		if i%3 == 2 {
+			r.Count("renderer:with-site-data")
+		}
 		ref, _ := c20Reference(src)
 		class := c20Class(src)
 		r.Eval("md:"+src, class != "other", nil)
